@@ -51,8 +51,13 @@ RowPart(d) ==
             r == 11 + ((i * 7919 + li * 104729) % ((n \div 2) - 20))
             ks == <<2, 10, r, n \div 2, n - r, n - 10, n - 2>> IN
         \A ki \in 1..3 : \A j \in 1..7 :
-           Emit(Case(IF m = 1 THEN "ci_wilson" ELSE "ci_z_normal", n, ks[j], ki, li, j = 1, j = 1 /\ ki = 1)
-                @@ [method |-> IF m = 1 THEN "wilson" ELSE "wald"])
+           /\ Emit(Case(IF m = 1 THEN "ci_wilson" ELSE "ci_z_normal", n, ks[j], ki, li, j = 1, j = 1 /\ ki = 1)
+                   @@ [method |-> IF m = 1 THEN "wilson" ELSE "wald"])
+           \* the documented alias and the Stats path at large populations too (count-based front-ends
+           \* everywhere, the iterating ones up to 65 536 at one level)
+           /\ (m = 1) => \A f \in {1, 5, 9} : Emit(Case(FrontEnds[f], n, ks[j], ki, li, FALSE, FALSE) @@ [method |-> "wilson"])
+           /\ (m = 1 /\ li = 12 /\ n <= 65536) => \A f \in {2, 3, 4, 6, 7, 8, 10} :
+                 Emit(Case(FrontEnds[f], n, ks[j], ki, li, FALSE, FALSE) @@ [method |-> "wilson"])
 
 Mults == <<1, 2, 3, 10, 100>>
 MultPart(d) ==
